@@ -4,18 +4,27 @@
  * Attached to the REAL functions by redeclaration after the TU has been #included (harness/xpoll/_unit*.h).
  * Kernel model: env/epoll_env.h (ghost interest list xv_ep[], eventfd, lock stubs) on top of env/fd.h (descriptor table).
  *
- * Vocabulary.  xv_j / xv_w (fd_regs), xv_b (bell_regs), xv_fk (descriptor table) are ARBITRARY ghost indices that nothing
- * assigns: a clause stated for them is proved for every index.  xv_keep is the arbitrary BYTE offset whose content the
- * ut_realloc model of env/base.h preserves: "byte xv_keep of the array is what it was" is proved for every offset, i.e.
+ * Vocabulary.  xv_j / xv_w (fd_regs), xv_b / xv_bw (bell_regs), xv_fk (descriptor table) are ARBITRARY ghost indices that
+ * nothing assigns: a clause stated for them is proved for every index.  xv_keep is the arbitrary BYTE offset whose content
+ * the ut_realloc model of env/base.h preserves: "byte xv_keep of the array is what it was" is proved for every offset, i.e.
  * the whole old content survives.  xv_g_* are ghost constants that a requires clause binds to an entry value.
- * Where a fact is needed at an index the code computes (the slot find_fd returns), a ghost index is not enough and the
- * clause is a quantifier with CONSTANT bounds 0..XP_CAP_MAX (CBMC expands it).
+ *
+ * Two things a ghost index cannot express, and how they are handled:
+ *  - a fact needed at an index the CODE computes (the slot find_fd returns; "some bell rings"): a quantifier with constant
+ *    bounds 0..XP_QCAP, which CBMC expands; contracts that need one explore tables up to XP_QCAP slots (the others up to
+ *    XP_CAP_MAX);
+ *  - the COUNTING part of the representation invariant (num_fd_regs / num_bell_regs = number of slots in use): it enters
+ *    the contracts only through its consequences, as preconditions -- a free slot exists when the table is not full
+ *    (existential: the witness xv_w / xv_bw), no bell is in use when num_bell_regs == 0.  That the counting invariant itself
+ *    is established by xpoll_create and kept by every operation is checked by the bounded job xpoll.sequence.
+ * Facts about one of the XV_NFD descriptor-table slots that a caller needs at a descriptor it computes are stated for all
+ * 8 slots (XP_FOR8) instead of the ghost index xv_fk.
  */
 #ifndef XV_XPOLL_H
 #define XV_XPOLL_H
 #include "contracts/begin.h"
 
-/* capacities above this are not explored (is_fresh needs a bound; the quantifiers are expanded up to it) */
+/* capacities above this are not explored (is_fresh needs a bound) */
 #ifndef XP_CAP_MAX
 #define XP_CAP_MAX 1024
 #endif
@@ -120,9 +129,6 @@ static inline void xv_xpoll_havoc(void)
 #define XP_RB_BOUND(x) (XP_RB_IN(x) ==> XP_RB(x) == xv_g_byte)
 /* slot xv_j bound to the ghost constants */
 #define XP_J_BOUND(x) (XP_J_IN(x) ==> ((x)->fd_regs[xv_j].fd == xv_g_fd && (x)->fd_regs[xv_j].event == xv_g_ev))
-#define XP_J_SAME(x) (XP_J_IN(x) ==> ((x)->fd_regs[xv_j].fd == xv_g_fd && (x)->fd_regs[xv_j].event == xv_g_ev))
-/* a used slot holds a descriptor >= 0, a free slot -1; no other negative value occurs (slot xv_j) */
-#define XP_J_WELLFORMED(x) (XP_J_IN(x) ==> ((x)->fd_regs[xv_j].fd >= -1 && ((x)->fd_regs[xv_j].fd >= 0 ==> (x)->fd_regs[xv_j].event >= 0)))
 /* witness: when the table is not full, slot xv_w is free (num_fd_regs counts the used slots, so one exists) */
 #define XP_FREE_WITNESS(x) ((x)->num_fd_regs < (x)->fd_regs_capacity ==> (XP_W_IN(x) && (x)->fd_regs[xv_w].fd == -1))
 /* descriptor d is in no slot.  Needed at the slot find_fd WOULD return, so a ghost index does not do: a quantifier with
@@ -698,11 +704,14 @@ static inline void xv_afd_havoc(void)
 #define AFD_NX(p) ((p) != NULL ? (p)->elem.le_next : (struct active_fd *)NULL)
 /* the references handed out = the sum of the user counts (up to 3 nodes: 2 on entry, one more after a creation) */
 #define XA_REFS_NOW (AFD_C(AH) + AFD_C(AFD_NX(AH)) + AFD_C(AFD_NX(AFD_NX(AH))))
-/* a well-formed BSD list of xv_g_n nodes */
+/* a well-formed BSD list of xv_g_n nodes.  The nodes are NOT made by __CPROVER_is_fresh: le_prev points into the list head /
+ * into the previous node, and a pointer that is merely assumed equal to such an address is not dereferenceable for CBMC
+ * (LIST_REMOVE writes through it).  The harness builds the list with malloc (xv_afd_make_list, harness/xpoll/_unit_afd.h);
+ * this predicate states what it built. */
 #define AFD_SHAPE ((xv_g_n >= 0 && xv_g_n <= 2) && (xv_g_n == 0 ==> AH == NULL) && \
-        (xv_g_n >= 1 ==> (__CPROVER_is_fresh(AH, AFD_NSZ) && AH->elem.le_prev == &active_fds.lh_first)) && \
+        (xv_g_n >= 1 ==> (AH != NULL && AH->elem.le_prev == &active_fds.lh_first)) && \
         (xv_g_n == 1 ==> AH->elem.le_next == NULL) && \
-        (xv_g_n == 2 ==> (__CPROVER_is_fresh(AH->elem.le_next, AFD_NSZ) && AN1->elem.le_prev == &AH->elem.le_next && AN1->elem.le_next == NULL)))
+        (xv_g_n == 2 ==> (AN1 != NULL && AN1 != AH && AN1->elem.le_prev == &AH->elem.le_next && AN1->elem.le_next == NULL)))
 /* module invariant of a node: 1..MAX_USERS_PER_FD users; its descriptor is an open, non-blocking, readable eventfd */
 #define AFD_NODE_OK(p) ((p)->cnt >= 1 && (p)->cnt <= MAX_USERS_PER_FD && (p)->fd >= 0 && (p)->fd < XV_NFD && XP_POOL_FD((p)->fd) && xv_fdt.e[(p)->fd].nonblock)
 #define AFD_NODES_OK ((xv_g_n >= 1 ==> (AFD_NODE_OK(AH) && AH->cnt == xv_g_c0 && AH->fd == xv_g_f0)) && \
@@ -783,6 +792,41 @@ __CPROVER_ensures((AFD_PUT1(fd) && xv_g_c1 == 1) ==> (AFD_PUT_CLOSED(fd) && __CP
         AH == __CPROVER_old(active_fds.lh_first) && AH->elem.le_next == NULL && AH->cnt == xv_g_c0 && AH->fd == xv_g_f0))
 /* PO[C15] active_fd_put.writes_only_under_lock */
 __CPROVER_ensures(AFD_NO_WRITE_BEFORE_LOCK && AFD_NO_WRITE_AFTER_UNLOCK)
+;
+
+/* ---- the two helpers, proved on their own under "lock held" (they neither take nor release it).  They are INLINED in job
+ * xpoll.afd_get: a replaced fd_create would hand back a node whose address the contract can only equate with the list
+ * head, and such a pointer is not dereferenceable for CBMC. */
+static struct active_fd *fd_retrieve(void)
+__CPROVER_requires(AFD_SHAPE)
+__CPROVER_requires(xv_lock_held && AFD_NODES_OK)
+__CPROVER_assigns(xv_g_n >= 1: AH->cnt)
+__CPROVER_assigns(xv_g_n == 2: AN1->cnt)
+/* PO[C08] fd_retrieve.first_node_with_room: the first node with fewer than MAX_USERS_PER_FD users gets one more; NULL iff every node is full; nothing else changes */
+__CPROVER_ensures(AFD_TAKES0 ==> (__CPROVER_return_value == AH && AH->cnt == xv_g_c0 + 1 && (xv_g_n == 2 ==> AN1->cnt == xv_g_c1)))
+__CPROVER_ensures(AFD_TAKES1 ==> (__CPROVER_return_value == AN1 && AH->cnt == xv_g_c0 && AN1->cnt == xv_g_c1 + 1))
+__CPROVER_ensures(AFD_CREATES ==> (__CPROVER_return_value == NULL && (xv_g_n >= 1 ==> AH->cnt == xv_g_c0) && (xv_g_n == 2 ==> AN1->cnt == xv_g_c1)))
+/* PO[C15] fd_retrieve.lock_untouched */
+__CPROVER_ensures(xv_lock_held)
+;
+static struct active_fd *fd_create(void)
+__CPROVER_requires(AFD_SHAPE)
+__CPROVER_requires(xv_lock_held && XP_RANGE(XP_SLACK_LEAF) && AFD_NODES_OK)
+__CPROVER_assigns(XV_EVENTFD_ASSIGNS, active_fds.lh_first)
+__CPROVER_assigns(xv_g_n >= 1: AH->elem.le_prev)
+/* PO[C08] fd_create.eventfd_failure_reported: eventfd(2) fails => NULL with its errno; no node, no descriptor, list untouched, no abort */
+__CPROVER_ensures(__CPROVER_return_value == NULL ==> (xv_errno > 0 && AH == __CPROVER_old(active_fds.lh_first) && xv_open_cnt == __CPROVER_old(xv_open_cnt) && XP_ALL_SLOTS_SAME))
+/* PO[C08,C04] fd_create.new_head: one new non-blocking eventfd with a NON-ZERO counter (always readable), owned by a new head node with 1 user; old nodes linked behind, untouched */
+__CPROVER_ensures(__CPROVER_return_value != NULL ==> (__CPROVER_is_fresh(__CPROVER_return_value, AFD_NSZ) && AH == __CPROVER_return_value && AH->cnt == 1 && \
+        AH->fd >= 0 && AH->fd < XV_NFD && XP_POOL_FD(AH->fd) && xv_fdt.e[AH->fd].nonblock && !xv_ep[AH->fd].in && xv_eventfd_init == 1 && xv_eventfd_flags == EFD_NONBLOCK && \
+        AH->elem.le_prev == &active_fds.lh_first && AH->elem.le_next == __CPROVER_old(active_fds.lh_first) && xv_open_cnt == __CPROVER_old(xv_open_cnt) + 1 && \
+        xv_errno == __CPROVER_old(xv_errno)))
+__CPROVER_ensures(xv_eventfd_calls == __CPROVER_old(xv_eventfd_calls) + 1 && XP_EPG_REST_SAME && XP_EPCTL_RECORD_SAME)
+/* the descriptor is a previously unused slot; every other slot is what it was */
+#define AFD_CREATE_SLOT(i) ((__CPROVER_return_value != NULL && __CPROVER_return_value->fd == (i)) ? !__CPROVER_old(xv_fdt.e[i].open) : XP_SLOT_SAME(i))
+__CPROVER_ensures(XP_FOR8(AFD_CREATE_SLOT))
+/* PO[C15] fd_create.lock_untouched */
+__CPROVER_ensures(xv_lock_held)
 ;
 #endif /* XP_AFD */
 
